@@ -28,7 +28,33 @@ func C07TwistU(r *big.Int) *big.Int {
 func C07U(t *rapid.T, label string) ([]byte, string) {
 	var u []byte
 	cls := ""
-	switch rapid.IntRange(0, 10).Draw(t, label+"_uk") {
+	switch rapid.IntRange(0, 11).Draw(t, label+"_uk") {
+	case 11:
+		// u engineered for the first ladder step of RFC 7748: E = AA - BB = 4u is
+		// multiplied by a24 (121665/121666).  Choose E with a 51-bit (or 25/26-bit)
+		// limb L_i = floor(k*2^64/c) - j, whose product with the small constant has
+		// a low machine word just below 2^64, and the limb below it maximal so that
+		// the incoming carry wraps that word; then u = E/4 mod p.  Uniform inputs
+		// reach such carries with probability ~2^-47.
+		c := rapid.SampledFrom([]int64{121666, 121665, 121666}).Draw(t, label+"_c")
+		i := rapid.IntRange(1, 4).Draw(t, label+"_limb")
+		kmax := new(big.Int).Div(new(big.Int).Mul(new(big.Int).Lsh(big.NewInt(1), 51), big.NewInt(c)), new(big.Int).Lsh(big.NewInt(1), 64)).Int64()
+		k := rapid.Int64Range(1, kmax).Draw(t, label+"_k")
+		li := new(big.Int).Div(new(big.Int).Lsh(big.NewInt(k), 64), big.NewInt(c))
+		li.Sub(li, big.NewInt(int64(rapid.IntRange(0, 2).Draw(t, label+"_j"))))
+		e := new(big.Int).SetBytes(UniformBytes(t, 32, label+"_e"))
+		e.Mod(e, ref.P)
+		mask51 := new(big.Int).Sub(new(big.Int).Lsh(big.NewInt(1), 51), big.NewInt(1))
+		for _, set := range []struct {
+			idx int
+			v   *big.Int
+		}{{i, li}, {i - 1, mask51}} {
+			sh := uint(51 * set.idx)
+			e.AndNot(e, new(big.Int).Lsh(mask51, sh))
+			e.Or(e, new(big.Int).Lsh(set.v, sh))
+		}
+		e.Mod(e, ref.P)
+		u, cls = ref.FEncode(ref.FDiv(e, big.NewInt(4))), "first-step-carry-engineered"
 	case 0:
 		l := ref.X25519LowOrderStrings()
 		return append([]byte(nil), l[rapid.IntRange(0, len(l)-1).Draw(t, label+"_lo")]...), "low-order"
